@@ -4,7 +4,7 @@
 # worktree unmodified: applies the patch in the worktree, rebuilds, runs demo + tests, reverts.
 wt=$1; k=$2; id=$3; rx=$4
 d=/verif/seeded/$id; mkdir -p $d
-cp $wt/_seed/$k/patch.diff $wt/_seed/$k/demo.c $wt/_seed/$k/notes.md $wt/_seed/$k/demo.sh $d/ 2>/dev/null
+cp $wt/_seed/$k/patch.diff $wt/_seed/$k/*.c $wt/_seed/$k/*.h $wt/_seed/$k/notes.md $wt/_seed/$k/demo.sh $d/ 2>/dev/null
 git -C /repo apply --check $d/patch.diff && echo "patch applies to /repo HEAD" || { echo "PATCH DOES NOT APPLY"; exit 1; }
 git -C $wt checkout -q -- . ; git -C $wt apply $d/patch.diff || { echo "patch does not apply in worktree"; exit 1; }
 cmake --build $wt/_build > /tmp/keepseed_build.log 2>&1 || { echo "BUILD FAILED"; tail -5 /tmp/keepseed_build.log; git -C $wt checkout -q -- .; exit 1; }
